@@ -48,6 +48,7 @@ Definition exec1 (i : sx) (s : vst) : step :=
               if String.eqb opc "mload" then (if a + 32 <=? MEMLIM then Next (bind_out out (mloadw m a) s) else Rev)
               else if String.eqb opc "iszero" then Next (bind_out out (w_iszero a) s)
               else if String.eqb opc "assert" then (if a =? 0 then Rev else Next s)
+              else if String.eqb opc "assign" then Next (bind_out out a s)
               else if String.eqb opc "alloca" then
                 Next (bind_out out (v_brk s) (mkV (v_env s) m (v_brk s + (a + 31) / 32 * 32) (v_params s)))
               else Stuck opc
@@ -109,4 +110,23 @@ Definition run_enc_tpl_v (tpl : sx) (t : ty) (v : val) : Z :=
          list_eqb (mread m (DST + size_bound t) 64) (mread m0 (DST + size_bound t) 64)
       then 1 else 0
   | RRevert => -1 | RFuel => -2 | RStuck _ => -3
+  end.
+
+(* normalisation template (params: src, dst) vs the model Widen.store_memory: both must leave, at dst, a value that
+   reads back (with the WIDE type) as v; nothing past the destination may change *)
+From Verif Require Import C06.Widen.
+Definition DSTN : Z := 262144.
+Definition run_norm_tpl (tpl : sx) (ts td : ty) (v : val) : Z :=
+  let m0 := mwrite (fun _ => 171) SRC (vylayout 238 ts v) in
+  match vstart tpl [SRC; DSTN] m0, store_memory ts td m0 SRC DSTN with
+  | RVal (_, s), Some mm =>
+      let m := v_mem s in
+      if val_eqb (vyread td m DSTN) v && val_eqb (vyread td mm DSTN) v &&
+         list_eqb (mread m DSTN (Z.to_nat (vmem_size td))) (mread mm DSTN (Z.to_nat (vmem_size td))) &&
+         list_eqb (mread m (DSTN + vmem_size td) 64) (mread m0 (DSTN + vmem_size td) 64)
+      then 1 else 0
+  | RRevert, None => 1
+  | RFuel, _ => -2
+  | RStuck _, _ => -3
+  | _, _ => 0
   end.
